@@ -9,6 +9,7 @@ import (
 	"os"
 	"path/filepath"
 	"sort"
+	"unsafe"
 
 	"github.com/Eyevinn/mp4ff/mp4"
 
@@ -17,14 +18,35 @@ import (
 )
 
 // shared is one buffer of the pool that all goroutines read concurrently.
-// data is what the library sees; pristine is a private copy that is never
-// handed to the library (canary reference and restore source).
+// It lives in an arena  [ head guard | data | tail guard ]  (len == cap): data
+// is the capacity-limited ("tight") view the library sees in one share of the
+// executions, the "roomy" view of the same bytes has the rest of the arena as
+// spare capacity (what  buf[a:b]  of a larger caller buffer, or the result of
+// hex.DecodeString / bytes.Buffer.Bytes, looks like). pristine is a private
+// copy of the WHOLE arena that is never handed to the library (canary
+// reference and restore source): the canary covers every byte up to cap.
 type shared struct {
 	name     string
-	data     []byte
-	pristine []byte
+	arena    []byte
+	off, n   int
+	data     []byte // arena[off : off+n : off+n]
+	pristine []byte // copy of arena
 	sum      [32]byte
 }
+
+const (
+	headGuard = 32
+	tailGuard = 96
+)
+
+// guardByte is the (never zero) pattern of guard areas.
+func guardByte(i int) byte { return 0xC5 ^ byte(i*7&0x3f) }
+
+// orig is the pristine copy of the data part.
+func (s *shared) orig() []byte { return s.pristine[s.off : s.off+s.n : s.off+s.n] }
+
+// roomyAll is the data with the tail guard as spare capacity.
+func (s *shared) roomyAll() []byte { return s.arena[s.off : s.off+s.n] }
 
 // input is one operand: a view into a shared buffer plus read-only context.
 type input struct {
@@ -39,6 +61,24 @@ type input struct {
 	pps       [][]byte
 	only4byte bool // annexb: every start code is 4 bytes (=> conversion is in place)
 	boxType   string
+
+	// roomy: every slice of this operand has spare capacity (the following
+	// bytes of its shared arena); twin is the same operand in the other mode.
+	roomy bool
+	twin  *input
+	mat   *material // shared crypto material in the same mode
+}
+
+// material is the shared read-only crypto material in one capacity mode.
+type material struct{ key, iv16, iv8, kid, pssh []byte }
+
+// guardedList is the outer slice of a roomy [][]byte operand: it has spare
+// capacity whose slots hold a sentinel; a library append to the caller's
+// list would overwrite a slot.
+type guardedList struct {
+	name string
+	full [][]byte // len == cap; [n:] are sentinel slots
+	n    int
 }
 
 type pool struct {
@@ -49,6 +89,9 @@ type pool struct {
 	// shared read-only crypto material
 	key, iv16, iv8, kid, pssh *shared
 	harvest                   map[string][]trackHarvest
+	mats                      [2]*material // [0] tight, [1] roomy
+	lists                     []*guardedList
+	sentinel                  []byte
 }
 
 // fileList: relative to the repository root. A "+" joins an init segment and
@@ -107,8 +150,18 @@ var fileKeys = map[string]string{
 }
 
 func (p *pool) addShared(name string, data []byte) *shared {
-	s := &shared{name: name, data: data}
-	s.pristine = append([]byte(nil), data...)
+	n := len(data)
+	arena := make([]byte, headGuard+n+tailGuard)
+	for i := 0; i < headGuard; i++ {
+		arena[i] = guardByte(i)
+	}
+	copy(arena[headGuard:], data)
+	for i := headGuard + n; i < len(arena); i++ {
+		arena[i] = guardByte(i - n)
+	}
+	arena = arena[:len(arena):len(arena)]
+	s := &shared{name: name, arena: arena, off: headGuard, n: n, data: arena[headGuard : headGuard+n : headGuard+n]}
+	s.pristine = append([]byte(nil), arena...)
 	s.sum = sha256.Sum256(s.pristine)
 	p.bufs = append(p.bufs, s)
 	p.byName[name] = s
@@ -127,7 +180,7 @@ func locate(s *shared, needle []byte, from int) ([]byte, int) {
 	if len(needle) == 0 || from > len(s.data) {
 		return nil, -1
 	}
-	i := bytes.Index(s.pristine[from:], needle)
+	i := bytes.Index(s.orig()[from:], needle)
 	if i < 0 {
 		return nil, -1
 	}
@@ -148,7 +201,11 @@ func shortName(rel string) string {
 
 // splitLengthPrefixed cuts a 4-byte-length-prefixed sample into NAL units
 // (harness-side, independent of the library).
-func splitLengthPrefixed(sample []byte) [][]byte {
+func splitLengthPrefixed(sample []byte) [][]byte { return splitLP(sample, false) }
+
+// splitLP: with roomy the NAL unit views keep the rest of the sample (and of
+// its arena) as spare capacity.
+func splitLP(sample []byte, roomy bool) [][]byte {
 	var out [][]byte
 	pos := 0
 	for pos+4 <= len(sample) {
@@ -157,7 +214,11 @@ func splitLengthPrefixed(sample []byte) [][]byte {
 		if n < 0 || pos+n > len(sample) {
 			return nil
 		}
-		out = append(out, sample[pos:pos+n:pos+n])
+		if roomy {
+			out = append(out, sample[pos:pos+n])
+		} else {
+			out = append(out, sample[pos:pos+n:pos+n])
+		}
 		pos += n
 	}
 	return out
@@ -273,7 +334,7 @@ func loadPool(env *runner.Env, harvest map[string][]trackHarvest) (*pool, error)
 		p.addInput(in)
 
 		// boxes cut out with the reference walker: up to 3 instances per type
-		if nodes, err := boxwalk.Walk(s.pristine); err == nil {
+		if nodes, err := boxwalk.Walk(s.orig()); err == nil {
 			all := boxwalk.All(nodes)
 			for _, n := range all {
 				if n.Size > 64<<10 || n.Size < 8 {
@@ -347,7 +408,11 @@ func loadPool(env *runner.Env, harvest map[string][]trackHarvest) (*pool, error)
 				vps: in.vps, sps: in.sps, pps: in.pps})
 		}
 	}
+	p.addAudioInputs()
 	sort.SliceStable(p.bufs, func(a, b int) bool { return p.bufs[a].name < p.bufs[b].name })
+	if err := p.makeTwins(); err != nil {
+		return nil, err
+	}
 	return p, nil
 }
 
@@ -404,7 +469,7 @@ func (p *pool) classifyPS(in *input, codec string, nalus [][]byte) {
 // shared buffer (offsets only).
 func libHarvest(s *shared) (out []trackHarvest) {
 	defer func() { _ = recover() }()
-	cp := append([]byte(nil), s.pristine...)
+	cp := append([]byte(nil), s.orig()...)
 	f, err := mp4.DecodeFile(bytes.NewReader(cp))
 	if err != nil || f == nil {
 		return nil
@@ -660,3 +725,97 @@ func bigAudioFile() []byte {
 	return w.Bytes()
 }
 
+
+// ---------------------------------------------------------------------------
+// capacity modes: tight / roomy twins of every operand
+
+// widen returns the view of the same bytes whose capacity runs to the end of
+// the shared arena that holds them (the following bytes of the buffer and its
+// tail guard are the spare capacity).
+func (p *pool) widen(b []byte) ([]byte, error) {
+	if len(b) == 0 {
+		return b, nil
+	}
+	base := uintptr(unsafe.Pointer(&b[0]))
+	for _, s := range p.bufs {
+		ab := uintptr(unsafe.Pointer(&s.arena[0]))
+		if base >= ab && base < ab+uintptr(len(s.arena)) {
+			o := int(base - ab)
+			if o+len(b) > len(s.arena) {
+				break
+			}
+			return s.arena[o : o+len(b)], nil
+		}
+	}
+	return nil, fmt.Errorf("operand slice of %d bytes does not lie in a shared arena", len(b))
+}
+
+func (p *pool) widenList(name string, l [][]byte) ([][]byte, error) {
+	if len(l) == 0 {
+		return l, nil
+	}
+	const spare = 3
+	full := make([][]byte, len(l)+spare)
+	for i, b := range l {
+		w, err := p.widen(b)
+		if err != nil {
+			return nil, err
+		}
+		full[i] = w
+	}
+	for i := len(l); i < len(full); i++ {
+		full[i] = p.sentinel
+	}
+	p.lists = append(p.lists, &guardedList{name: name, full: full, n: len(l)})
+	return full[:len(l)], nil
+}
+
+func tightList(l [][]byte) [][]byte {
+	for i := range l {
+		l[i] = l[i][:len(l[i]):len(l[i])]
+	}
+	return l[:len(l):len(l)]
+}
+
+// makeTwins gives every operand its roomy twin and both the crypto material of
+// their mode. Pure harness code (slice headers only).
+func (p *pool) makeTwins() error {
+	p.sentinel = []byte("C20 spare slot of a caller-owned list")
+	tight, roomy := &material{}, &material{}
+	for _, m := range []struct {
+		s    *shared
+		t, r *[]byte
+	}{{p.key, &tight.key, &roomy.key}, {p.iv16, &tight.iv16, &roomy.iv16}, {p.iv8, &tight.iv8, &roomy.iv8},
+		{p.kid, &tight.kid, &roomy.kid}, {p.pssh, &tight.pssh, &roomy.pssh}} {
+		if m.s != nil {
+			*m.t, *m.r = m.s.data, m.s.roomyAll()
+		}
+	}
+	p.mats = [2]*material{tight, roomy}
+	for _, in := range p.inputs {
+		in.data = in.data[:len(in.data):len(in.data)]
+		in.key = in.key[:len(in.key):len(in.key)]
+		in.vps, in.sps, in.pps = tightList(in.vps), tightList(in.sps), tightList(in.pps)
+		in.mat = tight
+		r := *in
+		r.roomy, r.mat = true, roomy
+		var err error
+		if r.data, err = p.widen(in.data); err != nil {
+			return fmt.Errorf("%s: %v", in.id, err)
+		}
+		if r.key, err = p.widen(in.key); err != nil {
+			return fmt.Errorf("%s key: %v", in.id, err)
+		}
+		if r.vps, err = p.widenList(in.id+" vps", in.vps); err != nil {
+			return fmt.Errorf("%s: %v", in.id, err)
+		}
+		if r.sps, err = p.widenList(in.id+" sps", in.sps); err != nil {
+			return fmt.Errorf("%s: %v", in.id, err)
+		}
+		if r.pps, err = p.widenList(in.id+" pps", in.pps); err != nil {
+			return fmt.Errorf("%s: %v", in.id, err)
+		}
+		in.twin, r.twin = &r, in
+	}
+	return nil
+}
